@@ -1,20 +1,31 @@
 #!/usr/bin/env python3
 """Rewrites the seeded-changes table of DESIGN.md (between the SEEDED-TABLE markers) from seeded/*/meta.json."""
 import json,glob,os,re
-rows=[]
+rows=[]; n=caught=first=0
 for f in sorted(glob.glob('/verif/seeded/*/meta.json')):
     m=json.load(open(f)); id=os.path.basename(os.path.dirname(f)); ev=m.get('evaluation',{})
     hist=ev.get('history','')
-    status='caught' if ev.get('detected') else 'MISSED'
-    if ev.get('detected') and hist.startswith('MISSED'): status='missed at first, caught after strengthening'
-    viol='; '.join(ev.get('violations',[])[:2])
+    n+=1
+    if ev.get('detected'):
+        caught+=1
+        status='caught'
+        if hist.startswith('MISSED'): status='missed at first, caught after strengthening'
+        else: first+=1
+    elif ev.get('detected_by_other_check_only'):
+        status='MISSED by its own check, caught by '+'+'.join(ev.get('detected_by',[]))
+    elif 'detected' in ev: status='MISSED'
+    else: status='(not evaluated yet)'
+    others=[p for p in ev.get('detected_by',[]) if p!=m['property']]
+    if ev.get('detected') and others: status+=' (also by '+', '.join(others)+')'
+    viol='; '.join(v.split(': ',1)[-1] for v in ev.get('violations',[])[:2])
     rows.append(f"| {id} | {m['property']} | {m['needs']} | {status} | `{viol}` |")
     if hist: rows.append(f"| | | *{hist}* | | |")
-table="| seeded change | property | what it needs in order to manifest | result (./check quick against the patched scratch tree) | first signatures |\n|---|---|---|---|---|\n"+'\n'.join(rows)
+head=f"{n} seeded changes kept; {caught} are caught by the check of their own property in the quick tier ({first} of them by the check as it was when the change arrived, {caught-first} after the check was strengthened).\n\n"
+table=head+"| seeded change | property | what it needs in order to manifest | result (./check quick against the patched scratch tree) | first signatures |\n|---|---|---|---|---|\n"+'\n'.join(rows)
 s=open('/verif/DESIGN.md').read()
 a,b='<!-- SEEDED-TABLE-BEGIN -->','<!-- SEEDED-TABLE-END -->'
 if a not in s:
     raise SystemExit("markers missing")
 s=s[:s.index(a)+len(a)]+'\n'+table+'\n'+s[s.index(b):]
 open('/verif/DESIGN.md','w').write(s)
-print(len(rows),"rows")
+print(len(rows),"rows;",n,"seeds,",caught,"caught,",first,"at once")
